@@ -160,8 +160,41 @@ func genC15(t *rapid.T) c15Case {
 		}
 	}
 	ya := p.ToY()
-	yb := ya.Clone()
 	used := map[string]bool{}
+	// embedded Rego operands: several `rego` members of one and/or that print alike (no message of their own)
+	// but check different things; reordering the operands must not change which of them are compiled
+	regoCodes := []string{
+		"$result = (count(object.get($node, \"http://ex.org/v#p0\", [])) > 0)",
+		"$result = (count(object.get($node, \"http://ex.org/v#p1\", [])) > 0)",
+		"vals = object.get($node, \"http://ex.org/v#note\", [])\n$result = (count(vals) == 0)",
+		"$result = (object.get($node, \"http://ex.org/v#e0\", null) != null)",
+	}
+	if vals := ya.Get("validations"); vals != nil && rapid.Bool().Draw(t, "regoOperands") {
+		for _, v := range vals.Vals {
+			if v.Kind != "map" || rapid.IntRange(0, 1).Draw(t, "wrapRego") != 0 {
+				continue
+			}
+			inner, outer := m.YMap(), m.YMap()
+			for i, k := range v.Keys {
+				if k == "targetClass" || k == "message" {
+					outer.Set(k, v.Vals[i])
+				} else {
+					inner.Set(k, v.Vals[i])
+				}
+			}
+			ops := []*m.Y{}
+			if len(inner.Keys) > 0 {
+				ops = append(ops, inner)
+			}
+			for _, code := range subset(t, regoCodes, 2, 3, "regoCodes") {
+				ops = append(ops, m.YMap().Set("rego", m.YStr(code)))
+			}
+			outer.Set(pick(t, []string{"and", "or"}, "regoConnective"), m.YSeq(ops...))
+			v.Keys, v.Vals = outer.Keys, outer.Vals
+			used["rego-operands"] = true
+		}
+	}
+	yb := ya.Clone()
 	permuteTree(t, yb, true, used)
 	switch rapid.IntRange(0, 3).Draw(t, "prefixRewrite") {
 	case 1: // consistent renaming ex -> another name, possibly one that shadows a built-in prefix the profile does not otherwise use
